@@ -53,7 +53,7 @@ check("C14", "fault_enumeration",
       "exhaustive fault-position enumeration + schedule exploration of the wrappers", "DESIGN.md#c14", engine="vsched")
 
 check("C19", "exploration",
-      "Every tree of <=3 (thorough <=4) files from a pool of 15 (eight names in src/, src/sub/ and a hidden directory, minifiable and failing contents) x 34 invocation shapes (file to stdout/file/dir/itself, several files, bundles, directories with and without trailing slash, -r/-a/-s, in place, match/include/exclude glob and regex, type/mime/ext overrides, stdin, -q/-v, rejected combinations) plus special trees (user's own .bak, existing destinations, symlinks) is run on the real cmd/minify binary in a fresh scratch directory. A reference model written from the README gives the destination paths; expected bytes come from library calls; every other path must be byte-identical before/after; exit status and leftover backups are checked.",
+      "Every tree of <=3 (thorough <=4) files from a pool of 17 (eight names in src/, src/sub/ and a hidden directory, minifiable and failing contents) x 36 invocation shapes (file to stdout/file/dir/itself, several files, bundles, directories with and without trailing slash, -r/-a/-s, in place, match/include/exclude glob and regex, type/mime/ext overrides, stdin, -q/-v, rejected combinations) plus special trees (user's own .bak, existing destinations, symlinks) is run on the real cmd/minify binary in a fresh scratch directory. A reference model written from the README gives the destination paths; expected bytes come from library calls; every other path must be byte-identical before/after; exit status and leftover backups are checked.",
       "The model is the trusted reading of cmd/minify/README.md; --watch, ownership and timestamps are not covered.",
       "bounded exhaustive enumeration of trees x invocations on the real binary vs reference model", "DESIGN.md#c19", engine="cli")
 
@@ -103,7 +103,7 @@ check("C10", "exploration",
       "bounded exhaustive input enumeration + deterministic work-growth ladders (coverage block counters)", "DESIGN.md#c10")
 
 check("C11", "exploration",
-      "19 hosts (HTML script with five type attributes, style, style=, on*= with and without a javascript: prefix, data: URIs percent- and base64-encoded; SVG style element as text and CDATA, style=; CSS url(data:…)) x 30 payloads (incl. quotes of both kinds, <, >, &, ]]>, white space, newlines) x 18 registry modes: a recording stub whose output is a marker of (type, input), 13 stubs with outputs that need re-escaping, a failing stub, a failing stub with a parse position, nothing registered, the real minifiers. The commutation law is checked by decoding: the host output is parsed by x/net/html, the own XML reader or the own RFC 2397 decoder, the embedded value is extracted and must equal what the embedded minifier wrote for exactly the documented pre-processing of the payload, called once with the documented media type and parameters; unregistered → bytes unchanged; failing → outer error with a position inside the host.",
+      "21 hosts (HTML script with five type attributes, style, style=, on*= with and without a javascript: prefix, data: URIs percent- and base64-encoded; SVG style element as text and CDATA, style=; CSS url(data:…)) x 30 payloads (incl. quotes of both kinds, <, >, &, ]]>, white space, newlines) x 18 registry modes: a recording stub whose output is a marker of (type, input), 13 stubs with outputs that need re-escaping, a failing stub, a failing stub with a parse position, nothing registered, the real minifiers. The commutation law is checked by decoding: the host output is parsed by x/net/html, the own XML reader or the own RFC 2397 decoder, the embedded value is extracted and must equal what the embedded minifier wrote for exactly the documented pre-processing of the payload, called once with the documented media type and parameters; unregistered → bytes unchanged; failing → outer error with a position inside the host.",
       "The documented pre-processing (trimming, javascript: removal, entity decoding) and the default media types per host are an own table; hosts not in the list are not covered.",
       "exhaustive product of hosts x payloads x registries with recording stubs, checked by independent decoding", "DESIGN.md#c11")
 
